@@ -310,11 +310,11 @@ def check_constructs(ctx, fi, vdesc, trace, mach):
 
 
 def r_autoinsert(ctx: Ctx, model, mach):
-    """an uploaded item comes back: with autoinsert_properties left at its default (or True) every property row refers to a property type
-    that is known to exist when the row is inserted - found among the stored types, or registered earlier in the same transaction;
-    with autoinsert_properties=False nothing is registered on the caller's behalf (an unknown type is then refused by the foreign key)"""
-    ctx.rule("D-upload: adsorbate_to_db / material_to_db (autoinsert_properties omitted, True, False) on every answer of the type look-up: "
-             "each property row's type was found stored or was registered before the row; False registers nothing")
+    """an uploaded item comes back: with the table of property types EMPTY (pinned by the scenario, so nothing can be "found") and
+    autoinsert_properties left at its default (or True), every property row is preceded in the same transaction by the registration of
+    its type; with autoinsert_properties=False nothing is registered on the caller's behalf (the foreign key then refuses the unknown type)"""
+    ctx.rule("D-upload: adsorbate_to_db / material_to_db (autoinsert_properties omitted, True, False) against an empty property-type table: "
+             "each property row's type was registered before the row; False registers nothing")
     I = mach.I
     n = 0
     for kind, mk in (("adsorbate", C09.mk_ads), ("material", C09.mk_mat)):
@@ -326,15 +326,15 @@ def r_autoinsert(ctx: Ctx, model, mach):
                 if how != "omitted":
                     kw["autoinsert_properties"] = how
                 return I.call_func(fi, [mk(I)], kw, None)
-            for oc, trace in mach.explore(thunk):
+            mach.empty_tables = {ttable}
+            try:
+                paths = list(mach.explore(thunk))
+            finally:
+                mach.empty_tables = set()
+            for oc, trace in paths:
                 if oc.kind != "ok" or any(e[0] == "fault" for e in trace):
                     continue
                 n += 1
-                found = set()
-                for lbl, c in oc.decisions:
-                    mt = re.match(r"'([^']+)' in \[row:" + re.escape(ttable) + r"\[type\]\]", lbl)
-                    if mt and c == 1:
-                        found.add(mt.group(1))
                 registered, problems, any_reg = set(), [], False
                 for e in trace:
                     if e[0] != "bind" or e[1] != "INSERT":
@@ -346,21 +346,19 @@ def r_autoinsert(ctx: Ctx, model, mach):
                         if e[2] == ttable:
                             registered.add(row.get("type"))
                             any_reg = True
-                        elif e[2] == ptable and how is not False:
-                            t = row.get("type")
-                            if t not in found and t not in registered:
-                                problems.append(t)
+                        elif e[2] == ptable and how is not False and row.get("type") not in registered:
+                            problems.append(row.get("type"))
                 if how is False:
                     ctx.ob(not any_reg, Finding("C08.D-upload", fi.where, f"{fi.name}|autoinsert=False|registers-types",
                                                 f"{fi.name}(autoinsert_properties=False) registers property types {sorted(map(str, registered))}: the caller asked "
                                                 "for unknown types to be refused"), nontrivial_key=("autoinsert", kind, "False", tuple(c for _, c in oc.decisions)))
                 else:
                     ctx.ob(not problems, Finding("C08.D-upload", fi.where, f"{fi.name}|autoinsert={how}|unregistered:{sorted(set(map(str, problems)))}",
-                                                 f"{fi.name}(autoinsert_properties {how}): property rows of type {sorted(set(map(str, problems)))} are inserted although "
-                                                 f"the type was neither found in {ttable} (answers {[(l, c) for l, c in oc.decisions][:4]}) nor registered before: the "
-                                                 "foreign key refuses the upload of an item with a new property"),
+                                                 f"{fi.name}(autoinsert_properties {how}) against an empty {ttable}: property rows of type "
+                                                 f"{sorted(set(map(str, problems)))} are inserted although the type was not registered before: the foreign key "
+                                                 "refuses the upload of an item with a new property"),
                            nontrivial_key=("autoinsert", kind, str(how), tuple(c for _, c in oc.decisions)))
-    ctx.floor("fault-free upload paths inspected for property-type registration", n, 12)
+    ctx.floor("fault-free upload paths inspected for property-type registration", n, 6)
 
 
 def r_lists(ctx: Ctx, model, mach, prop="C08", rule="D-read", kinds=("adsorbate", "material")):
